@@ -43,6 +43,7 @@ type Frame struct {
 
 // wirePort is the harness LinkEndpoint.
 type wirePort struct {
+	rxViews  [10]buffer.View
 	w        *World
 	node     *Node
 	nic      tcpip.NICID
@@ -230,7 +231,15 @@ func (vclock) NowMonotonic() int64   { return int64(vtime.Elapsed()) }
 // Inject delivers a network-layer packet to node n's NIC synchronously and waits for quiescence.
 func (w *World) Inject(n *Node, nic tcpip.NICID, proto tcpip.NetworkProtocolNumber, data []byte, srcMAC, dstMAC tcpip.LinkAddress) {
 	p := n.Ports[nic]
-	p.disp.DeliverNetworkPacket(p, srcMAC, dstMAC, proto, chunked(data))
+	// like the repository's fd-based endpoint, the port owns one array of view headers and
+	// refills it for every frame (fresh bytes, same array): whoever keeps the VectorisedView it
+	// was handed instead of a clone sees the next frame's views
+	vv := chunked(data)
+	k := copy(p.rxViews[:], vv.Views())
+	for i := k; i < len(p.rxViews); i++ {
+		p.rxViews[i] = nil
+	}
+	p.disp.DeliverNetworkPacket(p, srcMAC, dstMAC, proto, buffer.NewVectorisedView(len(data), p.rxViews[:k]))
 	w.Settle()
 }
 
